@@ -1,7 +1,7 @@
 (* C07/Properties.v — property theorems only.  Model: C07/Model.v (the code after fix commits
    e89b171, 07b228c; with the known finding F-C07a, whose fix 311264d was reverted by 0819a3f). *)
 From Coq Require Import String Lia.
-From RM Require Import C06.Model C06.Proofs C07.Model C07.Proofs C07.Proofs2 C07.Proofs3.
+From RM Require Import C06.Model C06.Proofs C06.Proofs5 C06.Driver C07.Model C07.Proofs C07.Proofs2 C07.Proofs3 C07.Proofs4.
 From RM Require C08.Model C08.Proofs.
 Open Scope Z_scope.
 
@@ -25,6 +25,42 @@ Theorem c07_table_total :
   forall l : list win_info, Forall win_wf l -> exists t, win_table l = Ret t.
 Proof. exact win_table_total. Qed.
 Print Assumptions c07_table_total.
+
+(* The record table refines the independent containment spec when no two records overlap: nothing is
+   repaired, dropped or merged, and a lookup returns the (unchanged) record whose range contains the
+   address — for records with address in u64 and size in u32. *)
+Theorem c07_table_refines_spec :
+  forall l, Forall win_wf l -> disjoint_ranges (keep l) ->
+    exists t, win_table l = Ret t /\ forall x, C08.Model.rm_get t x = table_spec_lookup l x.
+Proof. exact table_refines_spec. Qed.
+Print Assumptions c07_table_refines_spec.
+
+(* insert_win_stack_info on an overlap with the last kept record, exactly: a record that starts later cuts
+   its predecessor to end just before it; one that does not start later and covers another range is dropped;
+   the identical range is kept a second time; without an overlap the record is appended. *)
+Theorem c07_insert_overlap_cases :
+  forall lr li rest i mr,
+    acc_wf ((lr, li) :: rest) -> win_wf i -> win_range i = Some mr ->
+    (C08.Model.intersects lr mr = false -> insert_win ((lr, li) :: rest) i = Ret ((mr, i) :: (lr, li) :: rest)) /\
+    (C08.Model.intersects lr mr = true ->
+       (w_addr li < w_addr i ->
+          insert_win ((lr, li) :: rest) i =
+          Ret ((mr, i) :: ((w_addr li, w_addr i - 1), set_size li (w_addr i - w_addr li)) :: rest)) /\
+       (w_addr i <= w_addr li -> lr <> mr -> insert_win ((lr, li) :: rest) i = Ret ((lr, li) :: rest)) /\
+       (lr = mr -> insert_win ((lr, li) :: rest) i = Ret ((mr, i) :: (lr, li) :: rest))).
+Proof. exact insert_win_cases. Qed.
+Print Assumptions c07_insert_overlap_cases.
+
+(* What walk_stack receives after a STACK WIN (or CFI) walk on x86: the walker's registers and validity
+   set unchanged, provided eip >= 4096 and esp grew; otherwise no frame. *)
+Theorem c07_frame_handover_x86 :
+  forall callee_sp s,
+    match post_real 0 x86 callee_sp s with
+    | Some s1 => s1 = s /\ 4096 <= r_ctx s (a_ip x86) /\ callee_sp < r_ctx s (a_sp x86)
+    | None => r_ctx s (a_ip x86) < 4096 \/ r_ctx s (a_sp x86) <= callee_sp
+    end.
+Proof. intros. apply handover_x86. discriminate. Qed.
+Print Assumptions c07_frame_handover_x86.
 
 (* the whole of SymbolFile::walk_frame (framedata > fpo > STACK CFI) *)
 Theorem c07_walk_frame_total :
@@ -206,3 +242,14 @@ Example c07_nonvacuous_spec :
   | None => False
   end.
 Proof. vm_compute. repeat split; try reflexivity; try (intro H; discriminate H). Qed.
+
+Example c07_nonvacuous_disjoint :
+  let l := [mkWin 0 4 0 0 0 0 0 0 (AllocatesBasePointer false); mkWin 10 0 0 0 0 0 0 0 (AllocatesBasePointer false);
+            mkWin 4 6 0 0 0 0 0 0 (AllocatesBasePointer true)] in
+  Forall win_wf l /\ disjoint_ranges (keep l) /\ table_spec_lookup l 5 = Some (mkWin 4 6 0 0 0 0 0 0 (AllocatesBasePointer true)).
+Proof.
+  split; [repeat constructor; cbn; try lia; try reflexivity|].
+  split; [|vm_compute; reflexivity].
+  vm_compute. split; [|split; [|exact I]]; [|intros e' []].
+  intros e' [H|[]]; subst e'; reflexivity.
+Qed.
